@@ -530,7 +530,15 @@ def rule_signer_arm(ctx: Ctx, rep: Report) -> None:
     rep.floor("C20.signer_arm", 4)
 
 
+def rule_no_stale_cache_(ctx: Ctx, rep: Report) -> None:
+    """C20.no_stale_cache: a memoized mutable answer is never handed out or edited; a cached_property lives only in a frozen dataclass (see sigcommon.rule_no_stale_cache)."""
+    from rules.sigcommon import rule_no_stale_cache
+    rule_no_stale_cache(ctx, rep, "C20.no_stale_cache", ('btclib.',), 7)
+
+
 RULES = [
+    ("C20.no_stale_cache", rule_no_stale_cache_),
+
     ("C20.signer_arm", rule_signer_arm),
     ("C20.no_inplace_growth", rule_no_inplace_growth_),
     ("C20.nonce_consumed", rule_nonce_consumed),
